@@ -19,8 +19,10 @@ ManifestPhases == <<"p1", "p2">>
 
 \* an object whose phase annotation is missing ("none"), or is not exactly the name of a manifest phase ("p1ws": the name
 \* with a trailing blank, "unknown": some other name) fails validation: the whole render is rejected
+\* ("empty": a document without content is no object: it is neither rendered nor validated)
 Invalid(p) == \E i \in DOMAIN p.files : \E d \in DOMAIN p.files[i].docs :
-                 ~\E j \in DOMAIN ManifestPhases : p.files[i].docs[d].phase = ManifestPhases[j]
+                 /\ p.files[i].docs[d].phase # "empty"
+                 /\ ~\E j \in DOMAIN ManifestPhases : p.files[i].docs[d].phase = ManifestPhases[j]
 
 Flatten(ss) == LET F[i \in 0..Len(ss)] == IF i = 0 THEN <<>> ELSE F[i - 1] \o ss[i] IN F[Len(ss)]
 
